@@ -56,7 +56,46 @@ func c29(c *core.Ctx) {
 	c.Rule("C29.lockorder", "the lock-order graph of package server (edge A→B when B is acquired, directly or in a callee, while A is held) has no cycle", 1)
 	c.Rule("C29.rlock", "no RWMutex is read-locked again on a path that already holds its read lock (a writer queued in between deadlocks both)", 1)
 	c.Rule("C29.blockheld", "no potentially blocking channel send (outside a select with default) is executed while holding a server mutex that request handlers need", 1)
+	c.Rule("C29.balance", "every function of package server unlocks each mutex it locks on every path to a return (or defers the unlock): a request that takes an early return with a service mutex held blocks every later request", 10)
+	lockBalance(c, "C29.balance", "server")
 	c29IterAlias(c)
+	// the subscription worker keeps draining the channel the dispatcher feeds under a mutex
+	c.Rule("C29.drain", "every blocking select of (*Subscription).run that waits for the client's Publish request also receives from Subscription.NotifyChannel: MonitoredItemService.ChangeNotification sends into that channel without a default arm while holding the service mutex on the dispatcher goroutine, so a worker that stops draining while it waits for a silent client blocks the whole server after the channel's capacity is used up", 1)
+	if run := fn(c, "server", "Subscription", "run"); run != nil {
+		notifyF := field(c, "server", "Subscription", "NotifyChannel")
+		pubF := field(c, "server", "session", "PublishRequests")
+		n := 0
+		for _, g := range withHelpers(run) {
+			for _, b := range g.Blocks {
+				for _, in := range b.Instrs {
+					sel, ok := in.(*ssa.Select)
+					if !ok || !sel.Blocking {
+						continue
+					}
+					waitsClient, drains := false, false
+					for _, st := range sel.States {
+						if st.Dir != types.RecvOnly {
+							continue
+						}
+						switch loadedField(st.Chan).f {
+						case pubF:
+							waitsClient = true
+						case notifyF:
+							drains = true
+						}
+					}
+					if !waitsClient || pubF == nil {
+						continue
+					}
+					n++
+					c.Ob("C29.drain", fname(run)+"·select waiting for a Publish request", pos(c, sel), drains, "also receives from NotifyChannel: "+boolStr(drains))
+				}
+			}
+		}
+		if n == 0 {
+			c.Ob("C29.drain", fname(run)+"·select waiting for a Publish request", c.P.Pos(run.Pos()), false, "no blocking select on Session.PublishRequests found in the subscription worker")
+		}
+	}
 	c.Rule("C29.index", "no constant index into a slice returned by a call (e.g. Endpoints()[0]) without a dominating length check", 1)
 
 	// recover
